@@ -44,6 +44,13 @@ inductive Kind | raw | nodeOk | nodeNo | nodeNoListener | dead
 def Kind.reachable : Kind → Bool
   | .dead => false | _ => true
 
+/-- How the hosting application completes `StopNode`: `later` — the completion callback runs
+some time after `StopNode` returned (op `stopDone`; possibly never); `inlineOk` / `inlineFail` —
+it runs *inside* `StopNode`, before it returns, with succ = true / false (the real
+`baseapp.App.Stop` does that when every module stops synchronously). -/
+inductive StopMode | later | inlineOk | inlineFail
+  deriving DecidableEq, Repr
+
 /-- `NodeCtrl.services` (a map name → `ServiceState{State, RetireSupport}`) is kept as index
 sets over the static list of hosted services: service `i` (name `s<i>`) has
 `RetireSupport` iff `i ∈ support`, `State == Retired` iff `i ∈ retired`, and the
@@ -56,6 +63,7 @@ structure St where
   retired : List Nat
   allSup : Bool           -- NodeCtrl.retireSupport
   stopPend : Nat          -- StopNode calls whose completion callback has not run yet
+  stopMode : StopMode     -- the environment's StopNode regime, never changes
   deriving DecidableEq, Repr
 
 inductive Cmd | stat | retire | exit | webNodes | webRetire | webExit | other
@@ -102,10 +110,14 @@ def retireCmd (s : St) : St × List Evt :=
   else if !s.allSup then (s, [.reply .refused])
   else ({ s with st := .retiring }, [.pub .retiring] ++ tellAll .retire s.kinds ++ [.reply .ok])
 
-/-- ExitCmd.Handle -/
+/-- ExitCmd.Handle: `setState(Exiting)`, then `StopNode(cb)`, then reply -/
 def exitCmd (s : St) : St × List Evt :=
   if s.st ≠ .retired then (s, [.reply .refused])
-  else ({ s with st := .exiting, stopPend := s.stopPend + 1 }, [.pub .exiting, .stopNode, .reply .ok])
+  else match s.stopMode with
+    | .later => ({ s with st := .exiting, stopPend := s.stopPend + 1 }, [.pub .exiting, .stopNode, .reply .ok])
+    -- the callback runs inside StopNode: `if succ { setState(Exited) }`, then the handler returns "ok"
+    | .inlineOk => ({ s with st := .exited }, [.pub .exiting, .stopNode, .pub .exited, .reply .ok])
+    | .inlineFail => ({ s with st := .exiting }, [.pub .exiting, .stopNode, .reply .ok])
 
 /-- WebCmdRetire.Handle (a textual duplicate of RetireCmd.Handle in cmds.go) -/
 def webRetireCmd (s : St) : St × List Evt :=
@@ -116,7 +128,11 @@ def webRetireCmd (s : St) : St × List Evt :=
 /-- WebCmdExit.Handle (a textual duplicate of ExitCmd.Handle) -/
 def webExitCmd (s : St) : St × List Evt :=
   if s.st ≠ .retired then (s, [.reply .refused])
-  else ({ s with st := .exiting, stopPend := s.stopPend + 1 }, [.pub .exiting, .stopNode, .reply .ok])
+  else match s.stopMode with
+    | .later => ({ s with st := .exiting, stopPend := s.stopPend + 1 }, [.pub .exiting, .stopNode, .reply .ok])
+    -- the callback runs inside StopNode: `if succ { setState(Exited) }`, then the handler returns "ok"
+    | .inlineOk => ({ s with st := .exited }, [.pub .exiting, .stopNode, .pub .exited, .reply .ok])
+    | .inlineFail => ({ s with st := .exiting }, [.pub .exiting, .stopNode, .reply .ok])
 
 /-- the callback of `queryRetire`: runs only when the request completes without error, and
 only "ok" has an effect (`RetireSupport = true`, then `retireSupport` is recomputed) -/
@@ -167,9 +183,9 @@ def run (fixed : Bool) (s : St) : List Op → St × List Evt
 /-! ### start-up: `NewNodeCtrl`, `Start` (makeServices) and the probe 3 s later -/
 
 /-- the controller right after the probe `checkRetireSupport` sent its queries -/
-def start (kinds : List Kind) : St :=
+def start (kinds : List Kind) (mode : StopMode := .later) : St :=
   { st := .working, kinds := kinds, qpend := (List.range kinds.length).filter (reachableAt kinds),
-    support := [], retired := [], allSup := false, stopPend := 0 }
+    support := [], retired := [], allSup := false, stopPend := 0, stopMode := mode }
 
 /-- the NodeService kinds answer the probe at once (inside the same quiescent period), in
 index order; these answers are ordinary `qack` operations at the head of the history -/
@@ -186,12 +202,13 @@ def autoAcks : Nat → List Kind → List Op
 def history (kinds : List Kind) (ops : List Op) : List Op := autoAcks 0 kinds ++ ops
 
 /-- a whole case: `Start`, the probe, then the history -/
-def exec (fixed : Bool) (kinds : List Kind) (ops : List Op) : St × List Evt :=
-  let r := run fixed (start kinds) (history kinds ops)
+def exec (fixed : Bool) (kinds : List Kind) (ops : List Op) (mode : StopMode := .later) : St × List Evt :=
+  let r := run fixed (start kinds mode) (history kinds ops)
   (r.1, tellAll .queryretire kinds ++ r.2)
 
 /-- state and events after `Start` and the retire-support probe (what the driver starts from) -/
-def boot (fixed : Bool) (kinds : List Kind) : St × List Evt := exec fixed kinds []
+def boot (fixed : Bool) (kinds : List Kind) (mode : StopMode := .later) : St × List Evt :=
+  exec fixed kinds [] mode
 
 /-! ### observations used by the theorems -/
 
